@@ -3,6 +3,10 @@ REGISTRY = {
     "C11": {"harnesses": ["harness.h11"], "level": "other"},
     "C15": {"harnesses": ["harness.h15"], "level": "other"},
     "C02": {"harnesses": ["harness.h02"], "level": "other"},
+    "C03": {"harnesses": ["harness.hrx"], "level": "model_checking"},
+    "C04": {"harnesses": ["harness.hrx"], "level": "model_checking"},
+    "C05": {"harnesses": ["harness.hrx"], "level": "model_checking"},
+    "C14": {"harnesses": ["harness.hrx"], "level": "model_checking"},
     "C09": {"harnesses": ["harness.h09"], "level": "other"},
     "C10": {"harnesses": ["harness.h10"], "level": "other"},
 }
